@@ -208,4 +208,16 @@ PROPS = {
             for k in ("kw", "block") for n in (0, 1, 2, 3)
         ],
     },
+    "C05": {
+        "files": ["a2lfile/src/parser.rs", "a2lfile/src/tokenizer.rs", "a2lfile/src/writer.rs", "a2lfile/src/specification.rs", "a2lfile/src/lib.rs"],
+        "trusted": T_STD,
+        "assumptions": ["whole pipeline (load_from_string -> write_to_string) executed on a template document (PROJECT/MODULE/MEASUREMENT with ECU_ADDRESS/UNIT) whose layout is chosen symbolically per gap; only these element kinds' generated parsers/writers are exercised",
+                        "edit locality (single-field edits) is outside the claim"],
+        "jobs": [
+            {"engine": "E2", "module": "lib", "harness": "h_layout_inner", "functions": ["load_from_string", "tokenizer::tokenize_core", "parser::ParserState::get_line_offset", "specification::{A2lFile,Project,Module,Measurement,EcuAddress}::parse/stringify", "writer::Writer::add_whitespace", "writer::Writer::add_group", "A2lFile::write_to_string"],
+             "bound": "4 gaps inside a MEASUREMENT, each from {space, LF, blank line, CRLF} (256 layouts)", "timeout": 400, "extra_modules": ["tokenizer"], "validate": 40},
+            {"engine": "E2", "module": "lib", "harness": "h_layout_blocks", "functions": ["load_from_string", "tokenizer::tokenize_core", "parser::ParserState::get_line_offset", "parser::ParserState::get_next_tag_or_comment", "writer::Writer::add_group", "A2lFile::write_to_string"],
+             "bound": "3 gaps between block-level elements, each from {LF, blank line, block comment, line comment, multi-line block comment, inline block comment, CRLF} (343 layouts)", "timeout": 400, "extra_modules": ["tokenizer"], "validate": 40},
+        ],
+    },
 }
